@@ -489,7 +489,7 @@ def run_square(c, rec):
 SUBCHECKS = [
     SubCheck("C05/square_batch", run_square, strategy=square_cases, n={"quick": 300, "thorough": 3000}, shards={"quick": 2, "thorough": 4}),
     SubCheck("C05/resample_after_reassign", run_resample, strategy=resample_cases, n={"quick": 400, "thorough": 8000}, shards={"quick": 4, "thorough": 16}),
-    SubCheck("C05/gaussian_affine_law", run_gauss, strategy=c04.gauss_cases, n={"quick": 600, "thorough": 10000},
+    SubCheck("C05/gaussian_affine_law", run_gauss, strategy=c04.gauss_cases, n={"quick": 1500, "thorough": 10000},
              shards={"quick": 4, "thorough": 16}),
     SubCheck("C05/gmrf_affine_law", run_gmrf, strategy=c20.gmrf_cases, n={"quick": 300, "thorough": 5000},
              shards={"quick": 4, "thorough": 16}),
